@@ -268,6 +268,10 @@ func init() {
 						if strings.Contains(content, "@for") {
 							continue
 						}
+						// sometimes the file begins with a byte order mark or other bytes a tool may add or strip
+						if c.Rng.Intn(4) == 0 {
+							content = []string{"\ufeff", "\ufeff\ufeff", "\xef\xbb", "\xff\xfe", "\x00", "\r\n", "\u200b"}[c.Rng.Intn(7)] + content
+						}
 						os.WriteFile(path, []byte(content), 0o644)
 						c.Input(map[string]any{"path": path, "content": content, "round": round})
 						data := map[string]any{"di": 2, "ds": "s", "db": true, "df": 1.5, "dn": nil, "da": []int{3, 1, 2}, "de": []int{}, "do": map[string]any{"n": 4, "s": "os", "Up": true}}
